@@ -29,14 +29,18 @@ namespace YaegiVerif.RunId
 inductive IdSrc where
   | parent      -- `f.runid()` of the frame given as ancestor
   | interp      -- `interp.runid()` / `n.interp.runid()`: the interpreter's current id
-  | root        -- `anc.root.runid()`: the id of the root frame, read when the frame is made (`newCallFrame`)
+  | root        -- `anc.root.runid()`: the id of the root frame, read when the frame is made (`newCallFrame` of 4a41b28)
+  | epoch       -- `newCallFrame` of dc95f3e: the interpreter's CURRENT id, read when the frame is made — unless the
+                -- evaluation under which the function value was created (its epoch) has been cancelled: then a run
+                -- id the interpreter never has
   | other       -- anything else (the extractor could not classify the argument)
   deriving DecidableEq, Repr, Inhabited
 
 /-- which done channel the new frame of a call site races -/
 inductive DoneSrc where
   | inherit     -- `newFrame`: `f.done = anc.done`
-  | root        -- `newCallFrame`: `f.done = root.done`, read when the frame is made
+  | root        -- `newCallFrame` of 1578873: `f.done = root.done`, read when the frame is made
+  | interp      -- `newCallFrame` of dc95f3e: `interp.done`, read (with the id, under one lock) when the frame is made
   | other
   deriving DecidableEq, Repr, Inhabited
 
@@ -45,14 +49,29 @@ inductive BlkKind where
   deriving DecidableEq, Repr, Inhabited
 
 /-- the ways an interpreted function body gets its frame -/
-inductive Site where
-  | call | wrapper | closure
-  | earlier      -- a closure made (frame cloned) by an earlier, completed evaluation
-  | wrapperLate  -- a function wrapper entered by native code the evaluation has started and which calls back later
-                 -- (a timer, a handler): the same site as `wrapper`; the correspondence harness holds such a call
-                 -- back, when it is in flight at the cancellation, until everything else has settled
-  | closureLate  -- the same for a closure handed to such native code (the site of `closure`)
+inductive SiteKind where
+  | call       -- a declared function called by interpreted code (`call`)
+  | wrapper    -- a function wrapper (`genFunctionWrapper`): methods, method values, functions handed to native code
+  | closure    -- a function literal (`getFunc`)
   deriving DecidableEq, Repr, Inhabited
+
+/-- a call site: the kind, whether the function value was made by an EARLIER, completed evaluation (its epoch is not
+    the one of the evaluation that makes the call), and whether the call is made by native code that calls back late
+    (a timer, a handler: the correspondence harness holds such a call back, when it is in flight at the cancellation,
+    until everything else has settled; the machine does not look at this flag) -/
+structure Site where
+  kind : SiteKind
+  early : Bool
+  late : Bool
+  deriving DecidableEq, Repr, Inhabited
+
+def Site.call : Site := ⟨.call, false, false⟩
+def Site.wrapper : Site := ⟨.wrapper, false, false⟩
+def Site.closure : Site := ⟨.closure, false, false⟩
+def Site.earlier : Site := ⟨.closure, true, false⟩
+def Site.wrapperEarlier : Site := ⟨.wrapper, true, false⟩
+def Site.wrapperLate : Site := ⟨.wrapper, false, true⟩
+def Site.closureLate : Site := ⟨.closure, false, true⟩
 
 structure BlockFact where
   /-- `f.done` is among the `reflect.Select` cases of the (cancellable variant of the) operation -/
@@ -122,26 +141,45 @@ structure RunIdFacts where
   /-- run.go `getFunc`: the wrapper restores the literal's frame slot after each call (before d26dd9e); values
       are not modelled: tie and correspondence only -/
   closureRestoresSlot : Bool
+  /-- interp.go `stop`: `for e := range interp.running { e.cancelled = true }` before the bump, under the mutex (dc95f3e) -/
+  stopMarksEpochs : Bool
+  /-- the epochs reach the function values: `begin` makes a new epoch, registers it as running and stores it (with the
+      current id) in the root frame, `end` only unregisters it; `newFrame` and `clone` copy the epoch of their frame;
+      the wrapper of `genFunctionWrapper` reads the epoch of its frame when it is generated, the closure of `getFunc`
+      passes the epoch of its cloned frame -/
+  epochPlumbing : Bool
+  /-- interp.go `New` makes the cancellation channel (2db9fe7); values are not modelled: tie only -/
+  newMakesDone : Bool
+  /-- the functions the host takes from the global frame (result of `Execute`, `Symbols`) are wrapped by
+      `genHostFunctionWrapper`: they belong to no epoch (tie only: in the histories of C10 the evaluation that hands a
+      function to the host completes) -/
+  hostWrapperNoEpoch : Bool
   deriving DecidableEq, Repr, Inhabited
 
 def RunIdFacts.blk (F : RunIdFacts) : BlkKind → BlockFact
   | .recv => F.recv | .recv2 => F.recv2 | .send => F.send | .range => F.range | .select => F.select
 
-def RunIdFacts.site (F : RunIdFacts) : Site → IdSrc
-  | .call => F.callId | .wrapper => F.wrapperId | .closure => F.closureId | .earlier => F.closureId
-  | .wrapperLate => F.wrapperId | .closureLate => F.closureId
+def RunIdFacts.site (F : RunIdFacts) (s : Site) : IdSrc :=
+  match s.kind with
+  | .call => F.callId | .wrapper => F.wrapperId | .closure => F.closureId
 
-def RunIdFacts.siteDone (F : RunIdFacts) : Site → DoneSrc
-  | .call => .inherit | .wrapper => F.wrapperDone | .closure => F.closureDone | .earlier => F.closureDone
-  | .wrapperLate => F.wrapperDone | .closureLate => F.closureDone
+def RunIdFacts.siteDone (F : RunIdFacts) (s : Site) : DoneSrc :=
+  match s.kind with
+  | .call => .inherit | .wrapper => F.wrapperDone | .closure => F.closureDone
 
-/-- the id a new frame gets -/
-def newId (s : IdSrc) (parent cur root : Nat) : Nat :=
+/-- the id a new frame gets; `dead`: the epoch of the function value has been cancelled (a cancelled epoch implies a
+    `stop()`, so the interpreter's id is at least 1: 0 stands for the run id the interpreter never has) -/
+def newId (s : IdSrc) (parent cur root : Nat) (dead : Bool) : Nat :=
   match s with
   | .parent => parent
   | .interp => cur
   | .root => root
+  | .epoch => if dead then 0 else cur
   | .other => cur + 1
+
+/-- the epoch of a new frame is an earlier evaluation's: the function value was made by one, or by a frame of one
+    (`newFrame` and `clone` copy the epoch of their frame, `newCallFrame` gives the frame the epoch of the function value) -/
+def childEarly (s : Site) (parentEarly : Bool) : Bool := s.early || parentEarly
 
 /-- the loop guard of `runCfg` (the harness and the proofs use the loop without debugger) -/
 def guardOk (F : RunIdFacts) (fid cur : Nat) : Bool := !F.guardPlain || fid == cur
@@ -149,12 +187,11 @@ def guardOk (F : RunIdFacts) (fid cur : Nat) : Bool := !F.guardPlain || fid == c
 /-- is the done channel of a new frame the one `stop()` closes? `newFrame` copies the creating frame's; a closure
     made by an earlier evaluation keeps the channel of that evaluation in its cloned frame; `newCallFrame`
     takes the root frame's -/
-def childCur (F : RunIdFacts) (s : Site) (parentCur rootCur : Bool) : Bool :=
+def childCur (F : RunIdFacts) (s : Site) (parentCur rootCur nowCur : Bool) : Bool :=
   match F.siteDone s with
   | .root => rootCur
-  | _ => match s with
-    | .earlier => !F.cloneKeepsDone
-    | _ => parentCur
+  | .interp => nowCur
+  | _ => if s.kind == .closure && s.early then !F.cloneKeepsDone else parentCur
 
 /-- does a blocked operation of kind `k`, whose closure was generated by (or after) a `…WithContext` call
     (`canc`) or by a plain `Eval` before any, race the `done` channel of its frame? -/
@@ -179,6 +216,7 @@ structure Frame where
   id : Nat
   pc : Prog
   cur : Bool      -- the frame's `done` is the channel the current `…WithContext` call closes on cancellation
+  early : Bool    -- the frame's epoch is an earlier evaluation's (never cancelled by this evaluation's `stop()`)
   deriving DecidableEq, Repr, Inhabited
 
 /-- a goroutine made by a `go` statement which has not made its frame yet -/
@@ -186,6 +224,7 @@ structure Pending where
   site : Site
   pid : Nat       -- id of the frame that executed the `go` statement
   pcur : Bool     -- whether that frame's done channel is the current one
+  pearly : Bool   -- whether that frame's epoch is an earlier evaluation's
   body : Prog
   deriving DecidableEq, Repr, Inhabited
 
@@ -213,6 +252,7 @@ structure St where
   id : Nat                 -- Interpreter.id
   done : Bool              -- the `done` channel this evaluation started with is closed
   renewed : Bool           -- `interp.done` is no longer that channel (`stop()` installed a fresh one)
+  marked : Bool            -- the epoch of this evaluation is cancelled (`stop()` marks the running epochs)
   rootId : Nat             -- id of the root frame `interp.frame`
   rootCur : Bool           -- the root frame's `done` is the channel this evaluation started with
   runList : List Entry     -- entries `Execute` has not started yet
@@ -235,6 +275,10 @@ def newG (p : Pending) : G :=
 /-- `interp.run` stores `interp.done`, as it is now, in the frame it runs -/
 def curNow (σ : St) : Bool := !σ.renewed
 
+/-- is the epoch of a function value cancelled now? The epoch of this evaluation is once `stop()` has marked it; the
+    epoch of an earlier, completed evaluation never is (it is not among the running ones) -/
+def deadNow (σ : St) (early : Bool) : Bool := σ.marked && !early
+
 /-- execute the operation for which the guard was passed -/
 def execOp (F : RunIdFacts) (σ : St) (g : G) : G × List G :=
   match g.stack with
@@ -242,17 +286,18 @@ def execOp (F : RunIdFacts) (σ : St) (g : G) : G × List G :=
   | fr :: rest =>
     match fr.pc with
     | .done => ({ g with armed := false }, [])
-    | .step p => ({ g with stack := ⟨fr.id, p, fr.cur⟩ :: rest, armed := false, ops := g.ops + 1 }, [])
-    | .tick p => ({ g with stack := ⟨fr.id, p, fr.cur⟩ :: rest, armed := false, ops := g.ops + 1, ticks := g.ticks + 1 }, [])
-    | .mkclosure p => ({ g with stack := ⟨fr.id, p, fr.cur⟩ :: rest, armed := false, ops := g.ops + 1 }, [])
+    | .step p => ({ g with stack := ⟨fr.id, p, fr.cur, fr.early⟩ :: rest, armed := false, ops := g.ops + 1 }, [])
+    | .tick p => ({ g with stack := ⟨fr.id, p, fr.cur, fr.early⟩ :: rest, armed := false, ops := g.ops + 1, ticks := g.ticks + 1 }, [])
+    | .mkclosure p => ({ g with stack := ⟨fr.id, p, fr.cur, fr.early⟩ :: rest, armed := false, ops := g.ops + 1 }, [])
     | .call s body p =>
-      ({ g with stack := ⟨newId (F.site s) fr.id σ.id σ.rootId, body, childCur F s fr.cur σ.rootCur⟩ :: ⟨fr.id, p, fr.cur⟩ :: rest,
+      ({ g with stack := ⟨newId (F.site s) fr.id σ.id σ.rootId (deadNow σ (childEarly s fr.early)), body,
+                          childCur F s fr.cur σ.rootCur (curNow σ), childEarly s fr.early⟩ :: ⟨fr.id, p, fr.cur, fr.early⟩ :: rest,
                 armed := false, ops := g.ops + 1 }, [])
     | .spawn s body p =>
-      ({ g with stack := ⟨fr.id, p, fr.cur⟩ :: rest, armed := false, ops := g.ops + 1 },
-       [newG ⟨s, fr.id, fr.cur, body⟩])
+      ({ g with stack := ⟨fr.id, p, fr.cur, fr.early⟩ :: rest, armed := false, ops := g.ops + 1 },
+       [newG ⟨s, fr.id, fr.cur, fr.early, body⟩])
     | .block k c p =>
-      ({ g with stack := ⟨fr.id, p, fr.cur⟩ :: rest, armed := false, blocked := some (k, cancellable F k c && fr.cur),
+      ({ g with stack := ⟨fr.id, p, fr.cur, fr.early⟩ :: rest, armed := false, blocked := some (k, cancellable F k c && fr.cur),
                 ops := g.ops + 1 }, [])
 
 /-- what one transition of a goroutine produces -/
@@ -269,7 +314,8 @@ def advance (F : RunIdFacts) (σ : St) (g : G) : Out :=
   match g.pending with
   | some pd =>
     ⟨{ g with pending := none,
-              stack := [⟨newId (F.site pd.site) pd.pid σ.id σ.rootId, pd.body, childCur F pd.site pd.pcur σ.rootCur⟩] },
+              stack := [⟨newId (F.site pd.site) pd.pid σ.id σ.rootId (deadNow σ (childEarly pd.site pd.pearly)), pd.body,
+                         childCur F pd.site pd.pcur σ.rootCur (curNow σ), childEarly pd.site pd.pearly⟩] },
      [], σ.runList, σ.rootCur⟩
   | none =>
     match g.stack with
@@ -279,7 +325,7 @@ def advance (F : RunIdFacts) (σ : St) (g : G) : Out :=
         | [] => ⟨g, [], [], σ.rootCur⟩
         | e :: es =>
           if F.execChecksCancel && σ.done then ⟨g, [], [], σ.rootCur⟩
-          else ⟨{ g with stack := [⟨if e.root then σ.rootId else newId F.entryId σ.rootId σ.id σ.rootId, e.prog, curNow σ⟩] },
+          else ⟨{ g with stack := [⟨if e.root then σ.rootId else newId F.entryId σ.rootId σ.id σ.rootId false, e.prog, curNow σ, false⟩] },
                 [], es, if e.root then curNow σ else σ.rootCur⟩
       else ⟨g, [], σ.runList, σ.rootCur⟩
     | fr :: rest =>
@@ -336,6 +382,7 @@ def stepStop (F : RunIdFacts) (σ : St) : St :=
       id := if F.watcherStops && F.stopBumps then σ.id + 1 else σ.id,
       done := σ.done || (F.watcherStops && F.stopCloses),
       renewed := σ.renewed || (F.watcherStops && F.stopRenews),
+      marked := σ.marked || (F.watcherStops && F.stopMarksEpochs && F.epochPlumbing),
       watching := false,
       ret := if F.watcherCtxErr then some .ctxErr else some .value }
   else σ
@@ -351,7 +398,7 @@ def runSched (F : RunIdFacts) (σ : St) (cs : List Choice) : St := cs.foldl (ste
     channel is installed and stored in the root frame (the first thing `Execute` does is `interp.run(p.root, nil)`:
     tie `execRuns`), the main goroutine has an empty stack -/
 def start (F : RunIdFacts) (id rootId : Nat) (entries : List Entry) : St :=
-  { id := id, done := false, renewed := false, rootId := if F.execRefresh then id else rootId, rootCur := true,
+  { id := id, done := false, renewed := false, marked := false, rootId := if F.execRefresh then id else rootId, rootCur := true,
     runList := entries,
     gs := [{ stack := [], armed := false, blocked := none, ops := 0, ticks := 0, main := true, pending := none }],
     watching := true, ret := none }
@@ -396,8 +443,8 @@ def Prog.canc (F : RunIdFacts) : Prog → Bool
   | .step p => p.canc F
   | .tick p => p.canc F
   | .mkclosure p => p.canc F
-  | .call s b p => childCur F s true true && b.canc F && p.canc F
-  | .spawn s b p => childCur F s true true && b.canc F && p.canc F
+  | .call s b p => childCur F s true true true && b.canc F && p.canc F
+  | .spawn s b p => childCur F s true true true && b.canc F && p.canc F
   | .block k c p => cancellable F k c && p.canc F
 
 def Prog.size : Prog → Nat
@@ -412,23 +459,24 @@ def Prog.size : Prog → Nat
 def G.canc (F : RunIdFacts) (g : G) : Bool :=
   g.stack.all (fun fr => fr.pc.canc F && fr.cur) &&
   (match g.blocked with | some (_, rel) => rel | none => true) &&
-  (match g.pending with | some pd => pd.body.canc F && childCur F pd.site pd.pcur true | none => true)
+  (match g.pending with | some pd => pd.body.canc F && childCur F pd.site pd.pcur true true | none => true)
 
 /-- a site whose frame does not take the id of the frame that makes the call: a call of a function value through
     `newCallFrame` -/
 def fvSite (F : RunIdFacts) (s : Site) : Bool := F.site s != .parent
 
-/-- the goroutine is about to make a frame whose id is read later than the guard it has passed: it has a `go`
-    statement of a function value in flight, or (outside the goroutine of `Execute`) a call of a function value in
-    flight, or it has been started by such a `go` statement and has not made its frame yet -/
+/-- the goroutine is about to make a frame for a call of a function value that belongs to an EARLIER, completed
+    evaluation (made by one, or by a frame of one): it has such a call or such a `go` statement in flight, or it has
+    been started by such a `go` statement and has not made its frame yet. `stop()` does not cancel that epoch: the frame
+    will get the interpreter's current id. -/
 def G.fvPending (F : RunIdFacts) (g : G) : Bool :=
-  (match g.pending with | some pd => fvSite F pd.site | none => false) ||
+  (match g.pending with | some pd => fvSite F pd.site && childEarly pd.site pd.pearly | none => false) ||
   (g.armed &&
     (match g.stack with
      | fr :: _ =>
        (match fr.pc with
-        | .call s _ _ => fvSite F s && !g.main
-        | .spawn s _ _ => fvSite F s
+        | .call s _ _ => fvSite F s && childEarly s fr.early
+        | .spawn s _ _ => fvSite F s && childEarly s fr.early
         | _ => false)
      | [] => false))
 
@@ -566,7 +614,7 @@ def bindingOf (F : RunIdFacts) (h : HSt) : DefKind → Binding
   | .method => .callee
   | .closure => if F.cloneKeepsId then .fixed .closure h.rootId else .root   -- made by root code: clone of the root frame
   | .methodValueTop => .root
-  | .methodValueInFunc => .fixed .wrapper (newId F.entryId h.rootId h.id h.rootId)   -- the frame of the `init` function that made it
+  | .methodValueInFunc => .fixed .wrapper (newId F.entryId h.rootId h.id h.rootId false)   -- the frame of the `init` function that made it
   | .hostWrapper => .root
   | .imported => .callee
 
@@ -575,15 +623,24 @@ def bindingOf (F : RunIdFacts) (h : HSt) : DefKind → Binding
 def importRuns (F : RunIdFacts) (h : HSt) : Bool :=
   guardOk F (if F.importRefresh then h.id else h.rootId) h.id
 
-/-- the id of the frame in which the body of the definition runs for this use (`h` already refreshed for `eval`) -/
-def useFrameId (F : RunIdFacts) (h : HSt) (d : Def) : Nat :=
+/-- the id of the frame in which the body of the definition runs for this use (`h` already refreshed for `eval`).
+    `host`: a direct call by the host — of a declared function, a method or a function of an imported package the
+    host holds a wrapper made on the root frame. The epoch of a definition of a history is never cancelled: the
+    evaluation that made it has completed (`stop()` marks the running epochs only). -/
+def useFrameId (F : RunIdFacts) (h : HSt) (d : Def) (host : Bool := false) : Nat :=
   match d.binding with
-  | .callee => newId F.callId h.rootId h.id h.rootId
-  | .fixed site c => newId (F.site site) c h.id h.rootId
-  | .root => newId F.wrapperId h.rootId h.id h.rootId
+  | .callee => if host then newId F.wrapperId h.rootId h.id h.rootId false else newId F.callId h.rootId h.id h.rootId false
+  | .fixed site c => newId (F.site site) c h.id h.rootId false
+  | .root => newId F.wrapperId h.rootId h.id h.rootId false
 
 /-- does the body run? (the loop guard, for the first and every later operation: nothing changes the ids during a use) -/
-def alive (F : RunIdFacts) (h : HSt) (d : Def) : Bool := guardOk F (useFrameId F h d) h.id
+def alive (F : RunIdFacts) (h : HSt) (d : Def) (host : Bool := false) : Bool := guardOk F (useFrameId F h d host) h.id
+
+/-- is the done channel the frame of the body gets a closed one? A call made by an evaluation inherits the root
+    frame's; a direct call by the host gets what `newCallFrame` gives: the root frame's (1578873) or the interpreter's
+    current one (dc95f3e) -/
+def bodyDoneClosed (F : RunIdFacts) (h : HSt) (host : Bool) : Bool :=
+  if host then (match F.wrapperDone with | .interp => h.idone | _ => h.rdone) else h.rdone
 
 def value (d : Def) (x : Nat) : Nat := x * d.a + (if d.inited then d.b else 0) + (d.calls + 1)
 
@@ -591,12 +648,12 @@ def value (d : Def) (x : Nat) : Nat := x * d.a + (if d.inited then d.b else 0) +
     channel while the done channel its frame gets (the root frame's, directly through `newCallFrame` or inherited by
     the frame of a call made from the root frame) is closed, the blocking operation is "cancelled" at once: the body
     has counted the call and returns the zero value; otherwise the value -/
-def useBody (F : RunIdFacts) (h1 : HSt) (i x : Nat) : HSt :=
+def useBody (F : RunIdFacts) (h1 : HSt) (i x : Nat) (host : Bool := false) : HSt :=
   match h1.defs[i]? with
   | none => h1
   | some d =>
-    if alive F h1 d then
-      if d.blk && h1.rdone then
+    if alive F h1 d host then
+      if d.blk && bodyDoneClosed F h1 host then
         { h1 with defs := h1.defs.set i { d with calls := d.calls + 1 }, results := 0 :: h1.results }
       else
         { h1 with defs := h1.defs.set i { d with calls := d.calls + 1 }, results := value d x :: h1.results }
@@ -611,7 +668,7 @@ def stepH (F : RunIdFacts) (h : HSt) : Ev → HSt
     ({ h1 with defs := h1.defs ++ [{ kind := k, binding := bindingOf F h1 k, a := a, b := b, calls := 0, inited := inited, blk := blk }] } : HSt).leave F
   | .use i .eval x => (useBody F (h.enter F false) i x).leave F
   | .use i .evalCtx x => (useBody F (h.enter F true) i x).leave F
-  | .use i .host x => useBody F h i x
+  | .use i .host x => useBody F h i x true
   | .cancelled c =>
     match c with
     | .expiredBefore =>
